@@ -66,6 +66,7 @@ def ctrlpoints(draw, n, dim=None, values=None):
     """dim=0 -> scalars; dim>=1 -> vectors.  List of Fractions / lists."""
     if dim is None:
         dim = draw(st.sampled_from([0, 0, 1, 2, 2, 3]))
+    custom = values is not None  # a caller's value set (e.g. positive values only) is kept: no extrapolation
     values = values or small_fracs()
     if dim == 0:
         pts = draw(st.lists(values, min_size=n, max_size=n))
@@ -79,7 +80,7 @@ def ctrlpoints(draw, n, dim=None, values=None):
         pts[i] = pts[i - 1]
     elif pattern == "closed" and n >= 3:
         pts[-1] = pts[0]
-    elif pattern == "collinear" and n >= 3:
+    elif pattern == "collinear" and n >= 3 and not custom:
         if dim == 0:
             pts = [pts[0] + (pts[1] - pts[0]) * i for i in range(n)]
         else:
@@ -149,14 +150,34 @@ def outside_params(draw, U):
 
 
 @st.composite
-def same_interval_pair(draw, pmax=3, kmax=3, grid=12):
+def same_interval_pair(draw, pmax=3, kmax=3, grid=12, alike=False):
     """Two knot vectors on one interval with independent degrees; interior
     knots from one grid so that shared knots with different multiplicities,
     disjoint knots and different degrees all occur."""
     a, b = draw(intervals())
-    U, p = draw(knotvectors(0, pmax, kmax, (a, b), grid))
+    U, p = draw(knotvectors(1 if alike else 0, pmax, kmax, (a, b), grid))
     samedeg = draw(st.booleans())
     V, q = draw(knotvectors(0, pmax, kmax, (a, b), grid, degree=p if samedeg else None))
+    coincidence = draw(st.sampled_from((["free"] * 6 if not alike else []) + ["same-breaks-permuted"] * 2
+                                       + ["same-breaks-redrawn", "identical"]))
+    bu = breaks_of(U)[1:-1]
+    if coincidence != "free" and bu:
+        # structural coincidences between the operands: the same distinct knots with the multiplicities
+        # distributed differently (same degree, possibly the same number of control points), or identical vectors
+        if coincidence == "identical":
+            return (U, p), (list(U), p)
+        mults = [sum(1 for u in U if u == z) for z in bu]
+        if coincidence == "same-breaks-permuted":
+            mults = list(draw(st.permutations(mults)))
+            q = p
+        else:
+            q = p if draw(st.booleans()) else q
+            mults = [draw(st.integers(1, q + 1)) for _ in bu]
+        V = [a] * (q + 1)
+        for z, m in zip(bu, mults):
+            V += [z] * min(m, q + 1)
+        V += [b] * (q + 1)
+        return (U, p), (V, q)
     if draw(st.integers(0, 3)) == 0:
         # force a shared interior knot with (possibly) different multiplicity
         bu = breaks_of(U)[1:-1]
